@@ -118,7 +118,7 @@ func c07(c *an.Ctx) {
 				r1 = an.CallOf(adds[0]).Args[1]
 			}
 			r2 := an.CallOf(deps[0]).Args[1]
-			if !strings.HasPrefix(an.Expr(r2), strings.TrimPrefix(an.Expr(r1), "&")) && !strings.Contains(an.Expr(r2), "resource") {
+			if !isResourceOf(fn, r2, r1) {
 				o.FailAt(deps[0], "AddDependency uses %s but the tracker holds %s", an.Expr(r2), an.Expr(r1))
 			}
 		}
@@ -1125,4 +1125,32 @@ func keysOf(m map[string]bool) []string {
 	}
 	sort.Strings(out)
 	return out
+}
+
+// isResourceOf reports whether res is the reactive resource of the tracked *dbResource obj: a load of obj.resource, or
+// the value stored into obj.resource in fn.
+func isResourceOf(fn *ssa.Function, res, obj ssa.Value) bool {
+	obj = an.ThroughCell(obj)
+	res = an.ThroughCell(res)
+	isField := func(v ssa.Value) (*ssa.FieldAddr, bool) {
+		fa, ok := v.(*ssa.FieldAddr)
+		if !ok || !an.IsFieldAccess(fa, "dbResource", "resource") {
+			return nil, false
+		}
+		return fa, an.ThroughCell(fa.X) == obj
+	}
+	if ld, ok := res.(*ssa.UnOp); ok && ld.Op == token.MUL {
+		if _, ok := isField(ld.X); ok {
+			return true
+		}
+	}
+	found := false
+	an.Instrs(fn, func(i ssa.Instruction) {
+		if st, ok := i.(*ssa.Store); ok {
+			if _, ok := isField(st.Addr); ok && an.ThroughCell(st.Val) == res {
+				found = true
+			}
+		}
+	})
+	return found
 }
